@@ -5,12 +5,8 @@
 export GOFLAGS=-mod=mod GOPROXY=off GOSUMDB=off GOTOOLCHAIN=local
 id=$1; repo=${2:-/repo}
 ov=$(mktemp /tmp/rac-ov.XXXXXX.json); trap "rm -f $ov" EXIT
-cat > $ov <<JSON
-{"Replace": {
- "$repo/zz_rac_gen_test.go": "/verif/rac/rac_gen_test.go",
- "$repo/zz_rac_wf_test.go": "/verif/rac/rac_wf_test.go",
- "$repo/zz_rac_main_test.go": "/verif/rac/rac_main_test.go",
- "$repo/vm/zz_verif_access.go": "/verif/rac/vm_access.go"
-}}
-JSON
+{ echo '{"Replace": {'
+  for f in /verif/rac/rac_*_test.go; do echo " \"$repo/zz_$(basename $f)\": \"$f\","; done
+  echo " \"$repo/vm/zz_verif_access.go\": \"/verif/rac/vm_access.go\""
+  echo '}}'; } > $ov
 cd $repo && go test -tags verif -overlay $ov -vet=off -count=1 -timeout ${RAC_TIMEOUT:-900}s -run "TestRAC_$id\$" -v . 2>&1
